@@ -566,6 +566,26 @@ static void build(vf::Plan &plan, const vf::Opts &o)
         st.case_timeout_s = 20;
     }
 
+    {
+        auto cases = std::make_shared<std::vector<lp::LB>>(lp::cases_long_subject(T));
+        auto &st = plan.stage(strf("long haystacks (4,097 .. %s bytes) with the needle at every offset around 256 / 1,024 / 4,096 from either end, with and without an earlier occurrence",
+                                   T ? "65,600" : "8,200"),
+                              cases->size(),
+                              [cases, EXT_LIGHT](uint64_t i, Ctx &c) {
+                                  std::string hay, needle;
+                                  lp::make((*cases)[i], hay, needle);
+                                  Cfg cfg{EXT_LIGHT, false};
+                                  cfg.sparse = true;
+                                  check_case(c, make_hay(hay), make_needle(needle), cfg);
+                                  c.nontrivial();
+                              },
+                              [cases](uint64_t i) {
+                                  const lp::LB &q = (*cases)[i];
+                                  return strf("haystack of %u bytes, needle #%u at offset %u%s", q.L, q.sep, q.off, q.early ? " and at offset 10" : "");
+                              });
+        st.case_timeout_s = 30;
+    }
+
     // ---- complete fold sweep
     if (!reduced) {
         plan.stage("fold:all-256x256(haystack byte, needle byte), alone and as second byte ('bQ'+x vs 'q'+y)", 65536 * 2,
